@@ -131,9 +131,10 @@ def tlc(spec, cfg, scratch, workers=NCPU, timeout=900, env=None, heap="8g", extr
         # serial GC and C1 only, otherwise JIT/GC threads oversubscribe the cores
         # a small fixed young generation: fresh-page faults are very expensive in
         # this VM when 16 JVMs grow their heaps at once (measured 26 s -> 6 s)
-        java = ["java", "-XX:+UseSerialGC", "-XX:TieredStopAtLevel=1", "-Xmx" + heap, "-Xmn128m", "-XX:-UsePerfData"]
+        java = ["java", "-XX:+UseSerialGC", "-XX:TieredStopAtLevel=1", "-Xss256m", "-Xmx" + heap, "-Xmn128m", "-XX:-UsePerfData"]
     else:
-        java = ["java", "-XX:+UseParallelGC", "-Xmx" + heap, "-Xss64m"]
+        # small young generation + few GC threads: heap growth page faults dominate otherwise (36 s -> 10 s measured)
+        java = ["java", "-XX:+UseParallelGC", "-XX:ParallelGCThreads=4", "-Xmx" + heap, "-Xmn512m", "-Xss64m"]
     if deque:
         java.append("-Dtlc2.tool.queue.IStateQueue=StateDeque")
     cmd = java + ["-cp", TLA_CP, "tlc2.TLC", "-workers", str(workers), "-metadir", md, "-config", cfg] + (extra or []) + [spec]
@@ -254,7 +255,7 @@ class Rejection(object):
 
 
 def validate_traces(spec, cfg, files, scratch, is_boundary, timeout=900, heap="3g", deque=False, parallel=None,
-                    max_rejections=6, extra_env=None):
+                    max_rejections=3, extra_env=None):
     """Validate every trace file with TLC (one process per file, in parallel).
     A rejected line ends its scenario; validation resumes at the next scenario
     boundary (is_boundary(event_dict) -> bool) so the rest is still checked.
